@@ -53,7 +53,7 @@ type fxGroup struct {
 	AnyPw string // name of the user whose password has type "wildcard"
 	HSKey []byte
 	HSKid string
-	Auto  bool               // "auto-subgroups": true
+	Auto  bool                // "auto-subgroups": true
 	Toks  map[string]*fxToken // by role: adm, exp, op, fut (and admsub for the parent)
 }
 
